@@ -15,7 +15,7 @@ add("C02", True, "E1-enumerator", "exhaustive enumeration of edge/graph configur
 add("C03", True, "E1-enumerator", "exhaustive enumeration of small graph shapes (types x edge multisets x fixed subsets x list orders x ids) vs dense reduced Gauss-Newton reference step",
     "Every well-posed configuration of the bounded graph-shape family is optimised for one iteration and compared with pose [+] dx_ref from an independently assembled dense reduced system.",
     "edge errors/Jacobians taken from the edges themselves (C01/C02 own them); numpy dense solve trusted on <=40x40 well-conditioned systems", "DESIGN.md 4 C03")
-add("C04", False, "E1-enumerator", "exhaustive enumeration of all connected multigraphs on <=4(5) labelled R^n vertices x fixed subsets x initial guesses x information, vs closed-form weighted least squares",
+add("C04", True, "E1-enumerator", "exhaustive enumeration of all connected multigraphs on <=4(5) labelled R^n vertices x fixed subsets x initial guesses x information, vs closed-form weighted least squares",
     "Every linear graph of the bounded family is optimised and compared with the closed-form WLS minimiser and its chi2; structured families up to 30 vertices are added.",
     "numpy lstsq/Cholesky trusted for the reference; exhaustive up to 4 (quick) / 5 (thorough) vertices, structured above", "DESIGN.md 4 C04")
 add("C05", False, "E1-enumerator", "exhaustive enumeration of a finite family (graph family x size x perturbation pattern x noise pattern x radius x tol) inside calibrated radii; oracle = chi2 monotone, independent Newton decrement, ground truth recovery",
